@@ -464,8 +464,8 @@ class StrV:
 
 class MapV:
     """BTreeMap<String, V> / HashMap<String, V> with concrete keys"""
-    __slots__ = ('d', 'ordered')
-    def __init__(s, ordered=True): s.d = {}; s.ordered = ordered
+    __slots__ = ('d', 'ordered', 'ik')
+    def __init__(s, ordered=True): s.d = {}; s.ordered = ordered; s.ik = None          # ik: for integer-keyed maps, internal key -> the Int it stands for
     def keys(s): return sorted(s.d, key=lambda k: k.encode('utf-8')) if s.ordered else list(s.d)
     def __repr__(s): return f'map{{{", ".join(f"{k!r}: {s.d[k].v!r}" for k in s.keys())}}}'
 
@@ -896,6 +896,7 @@ class PathExec:
             elif nb < ob: bv = z3.Extract(nb - 1, 0, v.bv)
             else: bv = z3.SignExt(nb - ob, v.bv) if v.signed else z3.ZeroExt(nb - ob, v.bv)
             return Int(bv, ty)
+        if kind in ('PointerExposeProvenance', 'PointerExposeAddress') and isinstance(v, Ptr): return s.address_of(v.cell)
         if kind == 'Transmute' or kind.startswith('PtrToPtr') or kind.startswith('PointerCoercion'):
             if isinstance(v, Ptr):
                 if kind.startswith('PointerCoercion(Unsize') and isinstance(v.cell.v, Agg) and v.cell.v.kind == 'array':
@@ -1080,7 +1081,7 @@ class PathExec:
             if s.choose([('ok', okc), ('fail', z3.Not(okc))]) == 'fail': raise Panic(msg)
             return succ
         if k == 'drop':
-            if s.prog.drop_types: s.run_drop(fr, st[1])
+            if s.prog.drop_types or getattr(s, 'addrs', None): s.run_drop(fr, st[1])
             return st[2]
         if k == 'return': return 'RETURN'
         if k == 'unreachable': raise Unsupported('reached `unreachable`')
@@ -1106,6 +1107,18 @@ class PathExec:
             if kx == 'otherwise': conds.append(((b, 'o'), z3.And(*others) if others else z3.BoolVal(True)))
         return s.choose(conds)[0]
 
+    # ---- addresses: an exposed address is a fresh symbolic word, distinct from the addresses of all objects that are still alive; the address of an object
+    # that has been dropped may be handed out again (the allocator's choice = the solver's choice)
+    def address_of(s, cell):
+        t = s.__dict__.setdefault('addrs', {})
+        if id(cell) in t: return t[id(cell)][1]
+        a = s.fresh('addr', 64)
+        s.assume(z3.And(a != 0, (a & 7) == 0))
+        dead = s.__dict__.setdefault('dead', set())
+        for c2, a2 in t.values():
+            if id(c2) not in dead: s.assume(a != a2.bv)
+        r = Int(a, 'usize'); t[id(cell)] = (cell, r)
+        return r
     # ---- drops: user `impl Drop` bodies run where the (drop-elaborated) MIR drops an initialised place; std types have no observable drop
     def run_drop(s, fr, place):
         try: cell = s.place(fr, place)
@@ -1114,6 +1127,7 @@ class PathExec:
     def drop_value(s, cell, depth):
         v = cell.v
         if v is None or depth > 12: return
+        if getattr(s, 'addrs', None) is not None: s.__dict__.setdefault('dead', set()).add(id(cell))
         if isinstance(v, Agg):
             if v.lazy is not None: return
             f = s.prog.drop_types.get(v.ty) if v.ty else None
